@@ -156,7 +156,19 @@ func (fv *FuncVC) evalIdent(x *ast.Ident, st *State) Val {
 func (fv *FuncVC) globalVar(o *types.Var, st *State) Val {
 	s := fv.th.sortOf(o.Type())
 	name := "glob$" + sanitize(o.Pkg().Path()+"."+o.Name())
-	fv.th.declConst(name, s)
+	if !fv.th.declSeen[name] {
+		fv.th.declConst(name, s)
+		// a package-level variable initialised with &T{...} (and never reassigned: assumption) is a non-nil *T
+		if s == SRef {
+			if init := fv.globalInit(o); init != nil {
+				if u, ok := init.(*ast.UnaryExpr); ok {
+					if _, isLit := u.X.(*ast.CompositeLit); isLit {
+						fv.th.axioms = append(fv.th.axioms, mkNot(mkEq(name, "nil")))
+					}
+				}
+			}
+		}
+	}
 	v := Val{name, s, o.Type()}
 	return v
 }
@@ -367,7 +379,9 @@ func (fv *FuncVC) box(v Val, from, to types.Type, st *State) Val {
 	tag := fv.th.tagOf(from)
 	if v.S == SRef {
 		// pointer-like: the interface value is the reference itself
-		fv.addFact(st, mkImp(mkNot(mkEq(v.T, "nil")), mkEq(sx("dyntype", v.T), intLit(int64(tag)))))
+		if !strings.Contains(v.T, "?") { // not under a quantifier
+			fv.addFact(st, mkImp(mkNot(mkEq(v.T, "nil")), mkEq(sx("dyntype", v.T), intLit(int64(tag)))))
+		}
 		return Val{v.T, SRef, to}
 	}
 	f := fmt.Sprintf("box$%s$%d", sanitize(string(v.S)), tag)
@@ -797,4 +811,32 @@ func (fv *FuncVC) makeSlice(t types.Type, n string, st *State) Val {
 	arr := fv.th.constArr(SInt, es, fv.th.zero(et))
 	fv.setHeap(st, h, sx("store", fv.getHeap(st, h), r, arr))
 	return Val{sx("mk_slice", r, n), SSlice, t}
+}
+
+// globalInit finds the initialiser expression of a package-level variable.
+func (fv *FuncVC) globalInit(o *types.Var) ast.Expr {
+	p := fv.w.All[o.Pkg().Path()]
+	if p == nil {
+		return nil
+	}
+	for _, f := range p.Syntax {
+		for _, d := range f.Decls {
+			gd, ok := d.(*ast.GenDecl)
+			if !ok {
+				continue
+			}
+			for _, sp := range gd.Specs {
+				vs, ok := sp.(*ast.ValueSpec)
+				if !ok {
+					continue
+				}
+				for i, n := range vs.Names {
+					if p.TypesInfo.Defs[n] == o && i < len(vs.Values) {
+						return vs.Values[i]
+					}
+				}
+			}
+		}
+	}
+	return nil
 }
